@@ -161,6 +161,33 @@ def run(ctx):
             if W.maxdiff(res[0][1], fwd) > 4e-3 * scale:
                 ctx.violation("'back and forth' differs from one forward propagation by the net distance (%.3g)" % W.maxdiff(res[0][1], fwd), rec,
                               {'what': 'back_and_forth_net'})
+    # ---------------- SI units and closely spaced wavelengths (a spectrum sampled every few nanometres): the code is meant to be unit-free, an absolute
+    # tolerance or rounding to some decimal somewhere is not; every (depth, channel) result must be what a fresh propagator returns for it
+    for _ in range(ctx.n(3, 12)):
+        h, w = rng.choice([(6, 6), (5, 7), (8, 8)])
+        wl = rng.choice([[510e-9, 515e-9, 520e-9], [639e-9, 515e-9, 473e-9], [532e-9, 532.5e-9], [1550e-9, 1551e-9, 1552e-9, 1553e-9]])
+        cfgp = {'back': rng.random() < 0.5, 'method': rng.randrange(3), 'h': h, 'w': w, 'dx': 8e-6, 'z0': 2e-3, 'offset': 1e-4,
+                'lams': list(wl), 'dists': [rng.choice([-1e-3, 5e-4, 1e-3, 0.0]) for _ in range(2)], 'aperture': 'binary_default'}
+        keys = [(d, c) for d in range(2) for c in range(len(wl))]
+        rng.shuffle(keys)
+        keys = keys + keys[:3]
+        ops = [(d, c, W.rand_field(rng, h, w, 'gauss')) for (d, c) in keys]
+        ctx.case(('si_units', cfgp['back'], cfgp['method'], h, w, tuple(wl), tuple(keys)), True)
+        ctx.count('si_units/%d_channels' % len(wl))
+        ctx.traces += 1
+        try:
+            res, _p = run_impl(cfgp, None, ops)
+        except Exception as e:
+            ctx.violation('propagator raised %r (SI units)' % e, {'cfg': cfgp}, {'what': 'raises'})
+            continue
+        for k_, (d, c, u) in enumerate(ops):
+            fresh = build(cfgp, None)(torch.from_numpy(u).to(torch.complex64), channel_id=c, depth_id=d).detach().numpy().astype(np.complex128)
+            if W.maxdiff(res[k_][1], fresh) > 5e-4 * max(1.0, float(np.max(np.abs(fresh)))):
+                ctx.violation('propagator (wavelengths %s m): call %d for (depth %d, channel %d) of the sequence %s differs from a fresh propagator by %.3g'
+                              % (wl, k_, d, c, keys, W.maxdiff(res[k_][1], fresh)), {'cfg': cfgp, 'keys': keys},
+                              {'what': 'history', 'type': 'back_and_forth' if cfgp['back'] else 'forward', 'units': 'SI'})
+                break
+
     # ---------------- fields with leading (batch) dimensions [k x h x w], [1 x k x h x w]: zero_pad / custom / crop_center accept them; the result must be
     # the documented model applied to every 2-D slice (what a fresh propagator returns for each slice).  Rejected layouts are not judged.
     for _ in range(ctx.n(6, 40)):
